@@ -244,3 +244,13 @@ func readAllChunked(r io.Reader, bufsize int) ([]byte, error) {
 		}
 	}
 }
+
+// decodeOrderOnly: the model parses a whole MessagePack value and then views it as the
+// typed packet, go-codec decodes typed and streaming; on a value that is both ill-typed
+// and truncated the model reports the truncation (ErrUnexpectedEOF) and go-codec the
+// type error it meets first (ErrDecode).  Everything else — attribution, released
+// bytes — must still agree; such cases are counted with the unmodelled ones.
+func decodeOrderOnly(m, got string) bool {
+	const a, b = " ErrUnexpectedEOF", " ErrDecode"
+	return strings.HasSuffix(m, a) && strings.HasSuffix(got, b) && strings.TrimSuffix(m, a) == strings.TrimSuffix(got, b)
+}
